@@ -4,18 +4,21 @@ builder and checked percent-decoding in the parser; (c) one Set-Cookie line per 
 panic/unsafe clauses: C08."""
 import re
 
-from .lib import decision, guards, paths
+from .lib import decision, guards, paths, valueset
 from .lib.mir import AnchorLost
 
 CONFIGS_QUICK = ["A"]
 CONFIGS_THOROUGH = ["A", "R"]
-TECHNIQUE = "literal directive tables of SetCookieBuilder::build vs SetCookie::from_raw (arm -> field map from stores), taint of the cookie value, pairing of the Set-Cookie store with its size"
-LEVEL_TEXT = ("Decides clauses C11-a/b/c: the directive literals SetCookieBuilder::build emits (`; Expires=` .. `; SameSite=`) are, stripped of `; ` and `=`, exactly "
-              "the token array SetCookie::from_raw dispatches on, arm k of the parser assigns the field named by token k, and each emitted directive is "
-              "guarded by the field of the same name; SameSitePolicy::as_str and from_bytes are mutually inverse and within RFC 6265bis' vocabulary; the "
-              "cookie value reaches the output only through percent_encode and is read back through checked percent_decode_utf8 after quote stripping; "
-              "the final from_utf8_unchecked in build is fed only by bytes of &str values; SetHeaders::SetCookie pushes one element per call and accounts "
-              "`Set-Cookie: ` + value + CRLF, which is what the writer emits per element. Decides these clauses, not the round trip for all jars.")
+TECHNIQUE = ('literal directive tables of SetCookieBuilder::build vs SetCookie::from_raw (arm -> field map from stores), taint of the cookie value, pairing of the '
+             'Set-Cookie store with its size; value-set dataflow (powerset of 0..255) over the byte classifiers vs the RFC 6265 alphabets')
+LEVEL_TEXT = ('Decides clauses C11-a..d: the directive literals SetCookieBuilder::build emits (`; Expires=` .. `; SameSite=`) are, stripped of `; ` and `=`, exactly '
+              'the token array SetCookie::from_raw dispatches on, arm k of the parser assigns the field named by token k, and each emitted directive is guarded by '
+              "the field of the same name; SameSitePolicy::as_str and from_bytes are mutually inverse and within RFC 6265bis' vocabulary; the cookie value reaches "
+              'the output only through percent_encode and is read back through checked percent_decode_utf8 after quote stripping; the final from_utf8_unchecked in '
+              'build is fed only by bytes of &str values; SetHeaders::SetCookie pushes one element per call and accounts `Set-Cookie: ` + value + CRLF, which is what'
+              " the writer emits per element; the per-byte validators of the Cookie decoder let through exactly RFC 6265's cookie-octet alphabet (values) and token "
+              'alphabet (names), computed as the value sets reaching the accepting and refusing edges of the match. Decides these clauses, not the round trip for all'
+              ' jars.')
 
 DIRECTIVES = ["Expires", "Max-Age", "Domain", "Path", "SameSite", "Secure", "HttpOnly"]
 RFC6265_AV = {"Expires", "Max-Age", "Domain", "Path", "Secure", "HttpOnly", "SameSite"}
@@ -29,6 +32,7 @@ def run(ck, progs):
         ck.guard("C11-a TABLE directives", lambda: c11a(ck, prog))
         ck.guard("C11-b TAINT value", lambda: c11b(ck, prog))
         ck.guard("C11-c PAIR set-cookie", lambda: c11c(ck, prog))
+        ck.guard("C11-d TABLE alphabets", lambda: c11d(ck, prog))
     ck.config = None
 
 
@@ -145,3 +149,50 @@ def c11c(ck, prog):
     src = [c for c in f.calls() if c.name == "build"]
     ok = len(src) == 1
     ck.ob(R, "value-from-builder", ok, f.loc(None), "" if ok else "the stored line is not SetCookieBuilder::build()'s output", how="directives(SetCookieBuilder::new(name, value)).build()")
+
+
+# RFC 6265 4.1.1: cookie-octet = %x21 / %x23-2B / %x2D-3A / %x3C-5B / %x5D-7E
+COOKIE_OCTET = frozenset([0x21]) | frozenset(range(0x23, 0x2C)) | frozenset(range(0x2D, 0x3B)) | frozenset(range(0x3C, 0x5C)) | frozenset(range(0x5D, 0x7F))
+# RFC 6265 4.1.1 / RFC 2616 2.2: token = 1*<any CHAR except CTLs or separators>
+SEPARATORS = frozenset(b'()<>@,;:\\"/[]?={} \t')
+TOKEN = frozenset(x for x in range(0x21, 0x7F)) - SEPARATORS
+
+
+def accepted_bytes(prog, f):
+    """the bytes a per-byte validation loop lets through: value-set dataflow from the `Some(b)` edge of the loop's next()"""
+    sw = None
+    for b in sorted(f.live_blocks()):
+        t = f.blocks[b]["t"]
+        if t["k"] == "switch" and re.match(r"discr\(next\(", decision.describe_deep(f, t["discr"], 3)):
+            sw = b
+    if sw is None:
+        raise AnchorLost("no byte loop in %s" % f.key)
+    entry = [tb for tb, lab in f.succ(sw) if lab == 1]
+    if not entry:
+        raise AnchorLost("no Some edge of the byte loop in %s" % f.key)
+    header = [c.bb for c in f.calls() if c.name == "next"]
+    is_byte = lambda fn, op: re.fullmatch(r"next\(.*\)@Some\.0", decision.describe_deep(fn, op, 4)) is not None
+    rets = {bb: kind for bb, kind, _ in paths.ret_sites(f)}
+    sets = valueset.reach_sets(f, entry[0], is_byte, stop=lambda bb: bb in header or bb in rets)
+    rejected = frozenset()
+    for bb, kind in rets.items():
+        if kind in ("Err", "residual") and bb in sets:
+            rejected |= sets[bb]
+    cont = frozenset()
+    for hb in header:
+        cont |= sets.get(hb, frozenset())
+    return cont, rejected
+
+
+def c11d(ck, prog):
+    """`values plain ... as RFC 6265 allows`, `names over the RFC token alphabet`: the per-byte validators of the Cookie
+    decoder let through exactly RFC 6265's cookie-octet / token alphabets."""
+    R = "C11-d TABLE alphabets"
+    for nm, want, what in (("value", COOKIE_OCTET, "cookie-octet"), ("name", TOKEN, "token")):
+        f = prog.one(r"serde_cookie::de::valid::%s$" % nm)
+        acc, rej = accepted_bytes(prog, f)
+        ok = acc == want and rej == valueset.ALL - want
+        ck.ob(R, "valid::%s" % nm, ok, f.loc(None),
+              "" if ok else "serde_cookie valid::%s lets through %s and refuses %s; RFC 6265 %s is %s (wrongly refused: %s; wrongly accepted: %s)"
+              % (nm, valueset.show(acc), valueset.show(rej), what, valueset.show(want), valueset.show(want - acc), valueset.show(acc - want)),
+              how="accepted set = RFC 6265 %s (%d bytes), computed by value-set dataflow over the match" % (what, len(want)))
